@@ -200,6 +200,24 @@ def handle (op : String) (a : Json) : Except String Json := do
       | .raised e => errName e
       | .outOfFuel => "OUT-OF-FUEL"
     return ok (outJ res r.fs r.trace withTrace) ["bundled", tableTag fs r.fs, "res:" ++ res]
+  | "prepare_docs" =>
+    let w ← getWorld (← a.getObjVal? "world")
+    let spec ← getSpec (← a.getObjVal? "spec")
+    let fsT ← getFS (← a.getObjVal? "fs_track")
+    let fsC ← getFS (← a.getObjVal? "fs_corpus")
+    let two ← getBool a "two_roots"
+    let plan ← (← getArr a "plan").mapM getAttempt
+    let r := prepareDocs w spec two fsT fsC plan
+    let res := match r.res with
+      | .done () => "ok"
+      | .raised e => errName e
+      | .outOfFuel => "OUT-OF-FUEL"
+    let resolved := if two && r.track.doc.isSome then "track" else if r.corpus.doc.isSome then "corpus" else "none"
+    let bres := if two then (match (prepareBundled w spec fsT).res with
+      | .done true => "bundled:true" | .done false => "bundled:false" | .raised _ => "bundled:raised" | .outOfFuel => "bundled:fuel")
+      else "one-root"
+    return ok (Json.mkObj [("res", Json.str res), ("fs_track", fsJ r.track), ("fs_corpus", fsJ r.corpus), ("resolved", Json.str resolved)])
+      [bres, "resolved:" ++ resolved, "res:" ++ res]
   | "net_download" =>
     let fs ← getFS (← a.getObjVal? "fs")
     let plan ← (← getArr a "plan").mapM getAttempt
